@@ -151,6 +151,25 @@ func taintOf(P *Program, v ssa.Value, depth int) map[string]ssa.Value {
 				}
 			}
 		}
+		// library containers (url.Values, http.Header, *url.URL, builders) obtained from a call: whatever is
+		// later passed to a call together with the container may end up inside it (q.Set(k, secret))
+		if isLibraryContainer(v.Type()) {
+			if rs := v.Referrers(); rs != nil {
+				for _, r := range *rs {
+					if ci, isC := r.(ssa.CallInstruction); isC {
+						for _, arg := range ci.Common().Args {
+							if arg != v {
+								walk(arg, d)
+							}
+						}
+					}
+					if mu, isM := r.(*ssa.MapUpdate); isM && mu.Map == v {
+						walk(mu.Key, d)
+						walk(mu.Value, d)
+					}
+				}
+			}
+		}
 		// memory
 		var root ssa.Value
 		switch x := v.(type) {
@@ -208,6 +227,22 @@ func taintOf(P *Program, v ssa.Value, depth int) map[string]ssa.Value {
 	}
 	walk(v, depth)
 	return out
+}
+
+// isLibraryContainer: maps, and pointers to structs of net/url, net/http, strings, bytes.
+func isLibraryContainer(t types.Type) bool {
+	switch x := t.Underlying().(type) {
+	case *types.Map:
+		return true
+	case *types.Pointer:
+		if n, ok := x.Elem().(*types.Named); ok && n.Obj().Pkg() != nil {
+			switch n.Obj().Pkg().Path() {
+			case "net/url", "net/http", "strings", "bytes":
+				return true
+			}
+		}
+	}
+	return false
 }
 
 func taintNames(m map[string]ssa.Value) []string {
